@@ -36,8 +36,14 @@ pub fn parse_duration(i: &str) -> IResult<&str, Duration> {
     if i == "0" {
         return Ok(("", Duration::zero()));
     }
-    let (i, duration) = many1(parse_number_unit)(i)
-        .map(|(i, d)| (i, d.iter().fold(Duration::zero(), |acc, next| acc + *next)))?;
+    let (i, terms) = many1(parse_number_unit)(i)?;
+    let mut duration = Duration::zero();
+    for term in &terms {
+        // an overflowing sum is a parse failure, not a panic inside chrono's `+`
+        duration = duration.checked_add(term).ok_or_else(|| {
+            nom::Err::Failure(nom::error::Error::new(i, nom::error::ErrorKind::TooLarge))
+        })?;
+    }
     Ok((i, duration * if neg.is_some() { -1 } else { 1 }))
 }
 
